@@ -79,6 +79,11 @@ func injectMenu(acts map[*spec][]flyt.Action, loopHorizon int, allKinds bool) fu
 			}
 		}
 		if nerr == 0 || (nerr == sameVisit && (c.ph == pExec || c.ph == pFallback)) {
+			// where the callback's failure ends the run on the spot (not an attempt that would be
+			// retried), it may also be the callback that cancels the context and reports that
+			if _, cancellable := h.ctx.(*core.Ctx); cancellable && (c.ph != pExec || (c.attempt == c.node.attempts()-1 && !c.node.hasFallback())) {
+				m = append(m, answer{err: errCancelThenFail})
+			}
 			if allKinds {
 				for _, e := range injectKinds {
 					m = append(m, answer{err: e})
@@ -126,6 +131,12 @@ func shapeScenarioRuns(name string, d *shapeDesc, kinds []int, mk func(root *spe
 		for r := 0; r < runs; r++ {
 			if r > 0 {
 				h.nextRun()
+			}
+			if !d.uses(shFlowRetry) {
+				// a cancellable context per run (a callback may cancel it and fail, see injectMenu);
+				// not where a flow retries as a whole: its next attempt would meet the cancellation
+				cctx, _ := core.WithCancel(ctxBackground())
+				h.ctx = cctx
 			}
 			var a flyt.Action
 			var err error
